@@ -77,6 +77,31 @@ type Kernel struct {
 	Tables map[string]*Table
 	Sets   map[string]*Set
 	Log    []Op
+	// FailAt > 0: the FailAt-th state-changing iptables call from now on fails without any effect (a transient failure:
+	// the xtables lock is held by someone else); the counter then stops
+	FailAt int
+	nCalls int
+}
+
+// ArmFault makes the n-th (1-based) state-changing iptables call from now fail cleanly; 0 disarms.
+func (k *Kernel) ArmFault(n int) {
+	k.mu.Lock()
+	defer k.mu.Unlock()
+	k.FailAt, k.nCalls = n, 0
+}
+
+// inject is called, with the mutex held, at the start of every state-changing iptables call.
+func (k *Kernel) inject(kind, table, arg string) error {
+	if k.FailAt <= 0 {
+		return nil
+	}
+	k.nCalls++
+	if k.nCalls != k.FailAt {
+		return nil
+	}
+	k.FailAt = 0
+	k.Log = append(k.Log, Op{Kind: kind, Table: table, Arg: arg, OK: false, Why: "injected"})
+	return fmt.Errorf("Another app is currently holding the xtables lock (injected transient failure of %s)", kind)
 }
 
 var builtins = map[string][]string{
@@ -405,6 +430,9 @@ func (f *IPTables) EnsureChain(table utiliptables.Table, chain utiliptables.Chai
 	k := f.K
 	k.mu.Lock()
 	defer k.mu.Unlock()
+	if err := k.inject("ensure-chain", string(table), string(chain)); err != nil {
+		return false, err
+	}
 	t := k.table(string(table))
 	if _, ok := t.Chains[string(chain)]; ok {
 		k.log("ensure-chain", t.Name, string(chain), nil)
@@ -419,6 +447,9 @@ func (f *IPTables) FlushChain(table utiliptables.Table, chain utiliptables.Chain
 	k := f.K
 	k.mu.Lock()
 	defer k.mu.Unlock()
+	if err := k.inject("flush-chain", string(table), string(chain)); err != nil {
+		return err
+	}
 	t := k.table(string(table))
 	c, ok := t.Chains[string(chain)]
 	if !ok {
@@ -435,6 +466,9 @@ func (f *IPTables) DeleteChain(table utiliptables.Table, chain utiliptables.Chai
 	k := f.K
 	k.mu.Lock()
 	defer k.mu.Unlock()
+	if err := k.inject("delete-chain", string(table), string(chain)); err != nil {
+		return err
+	}
 	t := k.table(string(table))
 	fl := t.deleteChain(string(chain))
 	k.log("delete-chain", t.Name, string(chain), fl)
@@ -462,6 +496,9 @@ func (f *IPTables) EnsureRule(position utiliptables.RulePosition, table utilipta
 	k := f.K
 	k.mu.Lock()
 	defer k.mu.Unlock()
+	if err := k.inject("ensure-rule", string(table), string(chain)); err != nil {
+		return false, err
+	}
 	t := k.table(string(table))
 	r, err := ParseRule(args)
 	if err != nil {
@@ -489,6 +526,9 @@ func (f *IPTables) DeleteRule(table utiliptables.Table, chain utiliptables.Chain
 	k := f.K
 	k.mu.Lock()
 	defer k.mu.Unlock()
+	if err := k.inject("delete-rule", string(table), string(chain)); err != nil {
+		return err
+	}
 	t := k.table(string(table))
 	r, err := ParseRule(args)
 	if err != nil {
@@ -606,6 +646,9 @@ func (f *IPTables) restore(only string, data []byte, flush bool) error {
 	k := f.K
 	k.mu.Lock()
 	defer k.mu.Unlock()
+	if err := k.inject("restore", only, ""); err != nil {
+		return err
+	}
 	var cur *Table // private copy
 	var curName string
 	var firstErr error
